@@ -14,6 +14,8 @@
 #include <cerrno>
 #include <set>
 #include <string>
+#include <sys/mman.h>
+#include <map>
 #include <unordered_set>
 #include <vector>
 #include <unistd.h>
@@ -283,7 +285,16 @@ inline void guard_free(void *p) { if (!p) return; if (!guard_live().erase(p)) { 
 // buffers the library hands to the caller (tokens, JSON text) come from the installed allocator: an application that installed one
 // releases them with its own free
 inline bool &guard_active() { static bool a = false; return a; }
-inline void app_free(void *p) { if (guard_active()) guard_free(p); else free(p); }
+// page-guard allocator (jwt_set_alloc): every block ENDS at an inaccessible page, so a read or write one octet past it faults - also inside
+// libraries no sanitizer instruments (a length handed to OpenSSL that is larger than the buffer). Blocks start at (page end - size): structures,
+// whose size is a multiple of their alignment, stay aligned.
+struct PgBlock { void *base; size_t total; };
+inline std::map<void *, PgBlock> &pg_live() { static std::map<void *, PgBlock> *m = new std::map<void *, PgBlock>; return *m; }
+inline bool &pg_active() { static bool a = false; return a; }
+inline void *pg_malloc(size_t n) { if (!n) n = 1; const size_t ps = 4096; size_t pages = (n + ps - 1) / ps; char *base = (char *)mmap(nullptr, (pages + 1) * ps, PROT_READ | PROT_WRITE, MAP_PRIVATE | MAP_ANONYMOUS, -1, 0);
+  if (base == (char *)MAP_FAILED) return nullptr; mprotect(base + pages * ps, ps, PROT_NONE); char *p = base + pages * ps - n; memset(base, 0xA5, pages * ps - n > 0 ? pages * ps - n : 0); pg_live()[p] = {base, (pages + 1) * ps}; return p; }
+inline void pg_free(void *p) { if (!p) return; auto it = pg_live().find(p); if (it == pg_live().end()) { guard_foreign_frees()++; return; } munmap(it->second.base, it->second.total); pg_live().erase(it); }
+inline void app_free(void *p) { if (pg_active()) pg_free(p); else if (guard_active()) guard_free(p); else free(p); }
 // recycling allocator (installed through jwt_set_alloc by the "same address, other object" checks): a freed block is handed out again,
 // most recently freed first, to the next request of the same size - what a pool allocator or a plain malloc does, and what ASan's
 // quarantine prevents. Freed blocks are filled with 0xDD so that anything still reading them reads rubbish.
